@@ -74,14 +74,31 @@ def cases(ctx):
                 bad[q] ^= 1
             bad = hex_of(bad)
             yield dict(op="crc %s 0" % bad, real=(C, [bad]), pred=["pred_nonzero"], tag="weight%d" % w)
-    # the demodulator's acceptance test for DF17
-    for k in range(ctx.n(300, 3000)):
+    # the demodulator's acceptance test for DF17: valid frames pass, every single-bit corruption of the parity field
+    # and random data-bit corruptions are refused
+    for k in range(ctx.n(120, 2000)):
         d = spec.background(rng, 88, "rand")
         spec.put(d, 0, 5, 17)
-        good = hex_of(d + bits_of(spec.parity_of_data(d), 24))
-        badf = d + bits_of(spec.parity_of_data(d) ^ (1 << rng.randrange(24)), 24)
-        yield dict(op=None, real=("h:props.C01.check_msg", [good]), expect="True", tag="check_msg")
-        yield dict(op=None, real=("h:props.C01.check_msg", [hex_of(badf)]), expect="False", tag="check_msg")
+        p = spec.parity_of_data(d)
+        if k % 3 == 0:
+            # parity fields with leading zero nibbles (format-width slips)
+            for _ in range(200):
+                d2 = spec.background(rng, 88, "rand")
+                spec.put(d2, 0, 5, 17)
+                p2 = spec.parity_of_data(d2)
+                if p2 < (1 << (20 - 4 * (k % 2))):
+                    d, p = d2, p2
+                    break
+        good = hex_of(d + bits_of(p, 24))
+        yield dict(op=None, real=("h:props.C01.check_msg", [good]), expect="True", tag="check_msg-good")
+        for bit in range(24):
+            bad = hex_of(d + bits_of(p ^ (1 << bit), 24))
+            yield dict(op=None, real=("h:props.C01.check_msg", [bad]), expect="False", tag="check_msg-parity-flip")
+        for _ in range(4):
+            dd = list(d)
+            for q in rng.sample(range(5, 88), rng.randrange(1, 5)):
+                dd[q] ^= 1
+            yield dict(op=None, real=("h:props.C01.check_msg", [hex_of(dd + bits_of(p, 24))]), expect="False", tag="check_msg-data-flip")
 
 
 def pred_nonzero(real_out):
